@@ -212,6 +212,79 @@ def analytic(S, cls, d):
     S.prove(S.eq(got, want), 'integral:analytic-equals-exact-quadrature-of-eval')
 
 
+def _genz(S, Fm, cls, coeffs, extra):
+    arr = lambda v: np.array(v, dtype=object if S.lifted else float)
+    if cls == 'GenzOszillatory':
+        return Fm.GenzOszillatory(list(coeffs), extra['offset'])
+    if cls == 'GenzCornerPeak':
+        return Fm.GenzCornerPeak(list(coeffs))
+    if cls == 'GenzProductPeak':
+        return Fm.GenzProductPeak(list(coeffs), list(extra['mid'][:len(coeffs)]))
+    if cls == 'GenzGaussian':
+        return Fm.GenzGaussian(list(extra['mid'][:len(coeffs)]), list(coeffs))
+    if cls == 'GenzC0':
+        return Fm.GenzC0(list(coeffs), list(extra['mid'][:len(coeffs)]))
+    if cls == 'GenzDiscontinious':
+        return Fm.GenzDiscontinious(list(coeffs), list(extra['mid'][:len(coeffs)]))
+    raise AssertionError(cls)
+
+
+def genz_relations(S, cls, d, split_dim):
+    """Analytic integrals involving sin/cos/exp/erf/atan (uninterpreted: congruence only) cannot be compared with a quadrature of the
+    integrand, but they must satisfy the relations every integral satisfies: additivity when the box is cut in one dimension,
+    factorisation over the dimensions for the product-type families, and - for the oscillatory family - a dimension with a zero
+    coefficient contributes exactly its width."""
+    Fm = _fm()
+    concrete_c = cls in ('GenzProductPeak', 'GenzGaussian')  # c**-2 / sqrt(c) of a solver variable are not polynomial
+    coeffs = [2.0, 0.5, 4.0][:d] if concrete_c else _sym_vec(S, 'c', d)
+    if not concrete_c:
+        for c in coeffs:
+            S.assume(c != 0)
+        if cls in ('GenzC0', 'GenzDiscontinious'):
+            for c in coeffs:
+                S.assume(c > 0)
+    extra = {'offset': S.real('off'), 'mid': _sym_vec(S, 'm', d)}
+    start = _sym_vec(S, 's', d)
+    end = _sym_vec(S, 'e', d)
+    for k in range(d):
+        S.assume(start[k] < end[k])
+    if cls == 'GenzCornerPeak':
+        for corner in itertools.product(*[(start[k], end[k]) for k in range(d)]):
+            S.assume(1 + sum(c * x for c, x in zip(coeffs, corner)) > 0)
+    f = _genz(S, Fm, cls, coeffs, extra)
+    whole = _scalar(f.getAnalyticSolutionIntegral(list(start), list(end)))
+    # additivity
+    mid = S.real('cut')
+    S.assume(start[split_dim] < mid)
+    S.assume(mid < end[split_dim])
+    e1 = list(end)
+    e1[split_dim] = mid
+    s2 = list(start)
+    s2[split_dim] = mid
+    left = _scalar(_genz(S, Fm, cls, coeffs, extra).getAnalyticSolutionIntegral(list(start), e1))
+    right = _scalar(_genz(S, Fm, cls, coeffs, extra).getAnalyticSolutionIntegral(s2, list(end)))
+    S.prove(S.eq(left + right, whole), 'integral:additive-when-the-box-is-cut')
+    # factorisation over dimensions
+    if cls in ('GenzProductPeak', 'GenzGaussian', 'GenzC0', 'GenzDiscontinious') and d >= 2:
+        prod = 1
+        for k in range(d):
+            ex = {'offset': extra['offset'], 'mid': [extra['mid'][k]]}
+            fk = _genz(S, Fm, cls, [coeffs[k]], ex)
+            prod = prod * _scalar(fk.getAnalyticSolutionIntegral([start[k]], [end[k]]))
+        S.prove(S.close(whole, prod, 1e-12), 'integral:factorises-over-the-dimensions')  # 10**-d vs (10**-1)**d differ by rounding
+    # a zero coefficient contributes the width of its dimension
+    if cls == 'GenzOszillatory' and d >= 2:
+        for k in range(d):
+            cz = list(coeffs)
+            cz[k] = 0.0
+            fz = _genz(S, Fm, cls, cz, extra)
+            got = _scalar(fz.getAnalyticSolutionIntegral(list(start), list(end)))
+            rest = [j for j in range(d) if j != k]
+            fr = _genz(S, Fm, cls, [coeffs[j] for j in rest], extra)
+            want = _scalar(fr.getAnalyticSolutionIntegral([start[j] for j in rest], [end[j] for j in rest])) * (end[k] - start[k])
+            S.prove(S.eq(got, want), 'integral:zero-coefficient-dimension-contributes-its-width')
+
+
 def diag_discont(S, d):
     """FunctionDiagonalDiscont: indicator of the simplex sum(x) < 1 on the unit cube, analytic 1/d!.  Checked through the
     exact volume of the simplex computed by the harness from eval on a lattice is not exact -> only the value 1/d!."""
@@ -244,7 +317,7 @@ META = {
                     'exp, cos and x**(1/d) are uninterpreted: only argument equality (congruence) is used',
                     'FunctionShift is used with translations (the only shifts for which its analytic integral is meaningful)',
                     'GenzCornerPeak: 1 + sum c_i x_i > 0 (its domain)'],
-    'outside': ['GenzProductPeak with symbolic coefficients (concrete coefficients 2, 0.5, 4; midpoints and coordinates symbolic) and d > 2', 'analytic integrals involving exp/erf/atan/cos/fractional powers (Genz family, FunctionExpVar, UQ functions): no decidable encoding',
+    'outside': ['transcendental analytic integrals are only checked through integral relations (additivity, factorisation, zero-coefficient dimension), not against the integrand', 'GenzProductPeak with symbolic coefficients (concrete coefficients 2, 0.5, 4; midpoints and coordinates symbolic) and d > 2', 'analytic integrals involving exp/erf/atan/cos/fractional powers (Genz family, FunctionExpVar, UQ functions): no decidable encoding',
                 'FunctionGeneralizedNormal (marked incorrect in the source)', 'scipy.integrate fall-backs of the base class', 'plotting'],
 }
 
@@ -275,6 +348,13 @@ def jobs(tier):
         for d in b['analytic integral dims']:
             js.append(Job('integral[%s,d=%d]' % (cls, d), analytic, {'cls': cls, 'd': d}))
     js.append(Job('integral[Polynomial1d,d=1]', analytic, {'cls': 'Polynomial1d', 'd': 1}))
+    for cls in ['GenzOszillatory', 'GenzCornerPeak', 'GenzProductPeak', 'GenzGaussian', 'GenzC0', 'GenzDiscontinious']:
+        for d in ((1, 2, 3) if cls == 'GenzOszillatory' or tier != 'quick' else (1, 2)):
+            for split_dim in range(d):
+                if tier == 'quick' and split_dim not in (0, d - 1):
+                    continue
+                js.append(Job('relations[%s,d=%d,cut=%d]' % (cls, d, split_dim), genz_relations, {'cls': cls, 'd': d, 'split_dim': split_dim},
+                              validate=(5 if tier == 'quick' else 2), timeout_ms=30000, budget_s=(300 if tier == 'quick' else 1500)))
     for d in (1, 2, 3):
         js.append(Job('integral[FunctionDiagonalDiscont,d=%d]' % d, diag_discont, {'d': d}))
     return js
